@@ -644,12 +644,17 @@ def symbolic_comp(E, node, fr, sc, kind):
         pushed = True
         E.scoped_add(z3.And(i >= 0, i < as_int_term(n)))
         if kind == "dict":
-            raise Unsupported("dict comprehension over symbolic data")
-        val = E.ev(node.elt, sub)
+            kval = E.ev(node.key, sub)
+            vval = E.ev(node.value, sub)
+            val = None
+        else:
+            val = E.ev(node.elt, sub)
     finally:
         if pushed:
             E.pop()
         E.next_decision = saved
+    if kind == "dict":
+        return _dict_comp(E, i, as_int_term(n), kval, vval)
     if isinstance(val, (bool, SBool)):
         return QuantIter(i, as_int_term(n), as_bool_term(val))
     if kind == "set":
@@ -674,6 +679,34 @@ def symbolic_comp(E, node, fr, sc, kind):
                                                   r.t[i] == ops.seq_term_as(val, "int")), patterns=[r.t[i]])))
         return I._GenOutIter(r) if kind == "gen" else ListObj(seq=r)
     raise Unsupported("comprehension element %r over symbolic data" % (val,))
+
+
+def _dict_comp(E, i, n, kval, vval):
+    """{K(x): V(x) for x in s} over a sequence of symbolic length n, K and V terms in the bound index i: a fresh
+    dictionary d with  has[k] => k = K(j) and val[k] = V(j) for some j < n,  and has[K(j)] for every j < n.
+    (Which of several elements with the same key wins is left open: an over-approximation.)"""
+    def kind_term(v):
+        if isinstance(v, (bytes, SSeq)) and ops.seq_kind(v) == "bytes":
+            return "bytes", ops.seq_term_as(v, "int")
+        if ops.is_intlike(v) and not isinstance(v, (bool, SBool)):
+            return "int", as_int_term(v)
+        raise Unsupported("dict comprehension over symbolic data with key / value %r" % (v,))
+    kk, kt = kind_term(kval)
+    vk, vt = kind_term(vval)
+    d = E.fresh_dict("dictcomp", kk, vk)
+    ks = d.has.sort().domain()
+    x = z3.Const(E.fresh_name("k"), ks)
+    w = z3.Function(E.fresh_name("dictcomp.idx"), ks, IntS)
+    wx = w(x)
+    E.assume(SBool(z3.ForAll([x], z3.Implies(z3.Select(d.has, x), z3.And(
+        wx >= 0, wx < n, x == z3.substitute(kt, (i, wx)), z3.Select(d.val, x) == z3.substitute(vt, (i, wx)))),
+        patterns=[z3.Select(d.has, x)])))
+    j = z3.Int(E.fresh_name("j"))
+    E.assume(SBool(z3.ForAll([j], z3.Implies(z3.And(j >= 0, j < n), z3.Select(d.has, z3.substitute(kt, (i, j)))))))
+    hook = E.ghost.get("dictcomp_hook")
+    if hook is not None:
+        hook(E, d, i, n, kt, vt)
+    return d
 
 
 def _is_array_source(it):
